@@ -72,6 +72,16 @@ package util
 //@ ghost func allEventsKnown(anno string) bool = forall j int :: 0 <= j && j < splitLen(anno, ",") ==> has(events, eventName(anno, j))
 //@ ghost func hookFromDoc(h *rspb.Hook) bool = h != nil && docHasHookAnno(h.Manifest) && allEventsKnown(docHookAnno(h.Manifest)) && len(h.Events) == splitLen(docHookAnno(h.Manifest), ",") && (forall j int :: 0 <= j && j < len(h.Events) ==> h.Events[j] == events[eventName(docHookAnno(h.Manifest), j)])
 
+// ---- C12: the weight a hook is ordered by is the decimal value of its weight annotation (0 when the
+// annotation is missing or not a decimal integer)
+
+//@ ghost func weightAnno(entry SimpleHead) string = ite(has(entry.Metadata.Annotations, "helm.sh/hook-weight"), entry.Metadata.Annotations["helm.sh/hook-weight"], "")
+
+//@ func calculateHookWeight
+//@   props C12
+//@   requires entry.Metadata != nil
+//@   ensures [decimal-weight-or-zero] result == ite(isDecInt(weightAnno(entry)), decIntVal(weightAnno(entry)), 0)
+
 //@ func hasAnyAnnotation
 //@   props C08
 //@   ensures [some] result ==> entry.Metadata != nil && entry.Metadata.Annotations != nil
